@@ -473,6 +473,8 @@ class Interp:
         if t == 'copy' or t == 'move':
             cell, path = self.place(fr, op[1])
             v = self.load(cell, path)
+            if v is UNINIT and not path and f is not None:
+                v = self._zst(f, op[1][0], cell)
             if v is UNINIT:
                 raise Unsupported('read of uninitialised local %r in %s' % (op[1], f.name if f else '?'))
             if t == 'copy' and isinstance(v, Agg):
@@ -540,6 +542,8 @@ class Interp:
             return self.operand(fr, rv[1], f)
         if t == 'ref':
             cell, path = self.place(fr, rv[1])
+            if not path and cell.v is UNINIT and not rv[1][1]:
+                self._zst(f, rv[1][0], cell)
             return self.mkref(cell, path)
         if t == 'binop':
             return self.binop(rv[1], self.operand(fr, rv[2], f), self.operand(fr, rv[3], f))
@@ -581,6 +585,16 @@ class Interp:
         if t == 'adt':
             return self.adt(rv[1], [self.operand(fr, x, f) for x in rv[2]])
         raise Unsupported('rvalue ' + str(rv))
+
+    def _zst(self, f, loc, cell):
+        """zero-sized locals (capture-less closures, unit structs) are never assigned in MIR: materialise them on first use"""
+        ty = f.local_ty.get(loc, '')
+        m = re.match(r'^\{(closure@[^}]*)\}$', ty.strip())
+        if m:
+            cell.v = Agg(m.group(1), [])
+        elif ty.strip() == '()':
+            cell.v = UNIT
+        return cell.v
 
     def discriminant(self, v):
         if isinstance(v, Agg):
